@@ -7,6 +7,7 @@ import (
 
 	"verifharness/internal/core"
 	"verifharness/internal/mon"
+	"verifharness/internal/ref"
 )
 
 func init() {
@@ -334,7 +335,10 @@ func runC16(c *core.Ctx) {
 	// ---- CCFB metric block ----
 	c.Exhaustive("CCFB metric block: all 2^16 words in each of the 2 slots of a 2-metric report", 2<<16)
 	c.Section("ccfb-metric", 1<<8, func(cs *core.Case) {
-		in := []byte{0x8B, 205, 0, 5, 0, 0, 0, 1, 0, 0, 0, 2, 0, 10, 0, 1, 0x80, 0, 0x80, 0, 0, 0, 0, 9}
+		in := []byte{0x8B, 205, 0, 5, 0, 0, 0, 1, 0, 0, 0, 2, 0, 10, 0, 2, 0x80, 0, 0x80, 0, 0, 0, 0, 9}
+		if ref.LibCCFBMinus1 {
+			in[15] = 1 // the library's dialect of num_reports (known finding KF2); the metric words are what is judged here
+		}
 		for lo := uint16(0); lo < 1<<8; lo++ {
 			w := uint16(cs.Idx)<<8 | lo
 			for slot := 0; slot < 2; slot++ {
